@@ -34,6 +34,11 @@ CLAIMED = {
    text="Every universe value in every position of if/elsif/else chains (and unless) with the later conditions replaced by counting, failing, unknown and dividing-by-zero filters; every subject/when pair for case; the if/unless duality on generated conditions including failing ones; and generated conditional programs against the reference interpreter with tick counts.",
    note="Trusted: the reference interpreter's truthiness and ==. Within one and/or expression the statement does not promise short-circuiting, so tick counts are checked against a [short-circuit, eager] interval. case/when pairs whose equality the statement leaves open are counted as unspecified.",
    ref="DESIGN.md 7.C10"),
+ "C08": dict(
+   technique="property-based testing: exhaustive index grid, rapid-generated lookup paths and expression trees against a reference model, and three metamorphic relations (pipeline = assign decomposition, spacing invariance, strict = lax unless final nil)",
+   text="The array-length x index grid is swept completely; generated lookup paths over nested bindings and expression trees are compared with the reference model in normal and strict mode; every standard filter takes part in generated pipelines that must render exactly like their one-step-at-a-time assign decomposition; programs printed under two whitespace policies must render identically; unknown filters and excess arguments must be errors.",
+   note="Trusted: the reference lookup/printing model; the harness's filter arity table only steers generation (the relation itself is between two executions of the implementation). Unspecified: float indices, size of a string through property syntax, printing arrays/maps/ranges, exponent notation.",
+   ref="DESIGN.md 7.C08"),
 }
 
 REASON_PENDING = "check not built yet in this snapshot of /verif (planned: see DESIGN.md section 7); nothing is claimed for it"
